@@ -1,0 +1,6 @@
+//go:build !verif
+// +build !verif
+
+package astisub
+
+func verifEmit(site string, key interface{}, kv ...interface{}) {}
